@@ -36,6 +36,8 @@ def jobs_for(ck, exe, evict):
     if not evict:
         # limit "large": index tables that take a good part of a small shared segment
         jobs.append(dict(exe=exe, args=["--mode", "bigtable", "--seed", sa.subseed(ck, 95)], label="bigtable", timeout=7200))
+        jobs.append(dict(exe=exe, args=["--mode", "random", "--ops", nops, "--limit", 0, "--late", "--seed", sa.subseed(ck, 96)], label="rnd-late", env=LEAK_ON, timeout=7200))
+        jobs.append(dict(exe=exe, args=["--mode", "random", "--ops", nops, "--limit", 0, "--shared", "--shm", 2 << 20, "--late", "--seed", sa.subseed(ck, 97)], label="rnd-shared-late", timeout=7200))
     return jobs
 
 
